@@ -36,7 +36,9 @@ def one(co, prog_id, nlines):
         hasfall = name not in UNCOND
         try:
             a_ = i.arg if i.opcode >= dis.HAVE_ARGUMENT else None
-            if sys.version_info >= (3, 8):
+            if name == "EXTENDED_ARG":
+                fall = jump = 0
+            elif sys.version_info >= (3, 8):
                 fall = dis.stack_effect(i.opcode, a_, jump=False) if hasfall else 0
                 jump = dis.stack_effect(i.opcode, a_, jump=True) if hasjump else 0
             else:
@@ -107,7 +109,7 @@ def main():
                 codes.append(one(co, rec["id"], rec["nlines"]))
         except Exception as e:
             errors.append({"id": rec["id"], "error": "%s: %s" % (type(e).__name__, e)})
-    json.dump({"codes": codes, "excl": {"InCode": [0], "NoUnderflow": [0], "WithinDeclared": [0], "LineInSource": [0], "IndicesInRange": [0]}}, open(out, "w"))
+    json.dump({"codes": codes, "precise": sys.version_info >= (3, 8), "excl": {"InCode": [0], "NoUnderflow": [0], "WithinDeclared": [0], "LineInSource": [0], "IndicesInRange": [0]}}, open(out, "w"))
     print(json.dumps({"ncodes": len(codes), "nins": sum(len(c["ins"]) for c in codes), "errors": errors}))
 
 
